@@ -15,7 +15,8 @@ THEOREMS = [
     'SF.C02.mk_ok_iff_nodup', 'SF.C02.wf_bijection', 'SF.C02.bijection', 'SF.C02.auto_bijection',
     'SF.C02.slice_inclusive', 'SF.C02.go_history', 'SF.C02.extend_atomic', 'SF.C02.append_rejected_unchanged',
     'SF.C02.fromLabels_sound', 'SF.C02.fromLabels_rejects', 'SF.C02.leaf_bijection',
-    'SF.C02.append_counterexample', 'SF.C02.levelGO_history', 'SF.C02.levelGO_extend_rejected', 'SF.C02.append_wf',
+    'SF.C02.appendPinned_counterexample', 'SF.C02.append_repaired_example', 'SF.C02.append_exact',
+    'SF.C02.levelGO_history', 'SF.C02.levelGO_extend_rejected',
 ]
 PARTIAL = []
 CORR_ONLY = [
@@ -238,7 +239,7 @@ def cases(ctx):
             for ln in range(1, 4):
                 for hist in itertools.product(alpha + [tok(('c', 1))], repeat=ln):
                     yield {'k': 'ihgo', 'toks': list(start), 'kinds': ['s', 'i'], 'ops': [['ap', t] for t in hist]}
-    # fixed boundary histories: zero-length grow-only hierarchy (append builds the chain; extend: finding F43)
+    # fixed boundary histories: zero-length grow-only hierarchy (append builds the chain; extend: repaired F43)
     yield {'k': 'ihgo', 'toks': [], 'kinds': ['s', 'i'], 'ops': [['ap', tok(('a', 1))], ['ap', tok(('a', 2))], ['ap', tok(('b', 1))], ['ap', tok(('a', 2))]]}
     yield {'k': 'ihgo', 'toks': [], 'kinds': ['s', 'i'], 'ops': [['ex', [tok(('a', 1)), tok(('b', 1))]]]}
     yield {'k': 'ihgo', 'toks': [tok(('a', 1)), tok(('b', 1))], 'kinds': ['s', 'i'], 'ops': [['ap', tok(('a', 2))]]}
@@ -258,6 +259,14 @@ def cases(ctx):
             yield gen_derive(rng)
         if i % 5 == 0:
             yield gen_ihgo(rng)
+        if i % 40 == 0:
+            # level_drop of outer levels on depth >= 3 followed by lookups (the offsets of the promoted targets: repaired F45)
+            depth = rng.choice([3, 3, 4])
+            toks, kinds = ic.rand_tree_tuples(rng, depth, kinds=[rng.choice('sif') for _ in range(depth)], max_fan=3, max_leaves=rng.choice([4, 8, 12]))
+            c = gen_derive(rng)
+            c['base'] = {'ih': toks, 'kinds': kinds, 'go': rng.random() < 0.3}
+            c['op'] = 'level_drop'
+            yield c
 
 
 def search(ctx):
@@ -300,6 +309,10 @@ def flat_keys(c):
             keys.append(('listprobe',))
         keys.append(('list', [n - 1, 0] if n > 1 else [0]))
         keys.append(('mask', [(i % 2 == 0) for i in range(n)]))
+        # descending label slices (step -1): start and stop label both included (finding F47)
+        for (i, j) in ((n - 1, 0), (n - 1, n // 2), (n // 2, n // 2)):
+            if i not in none_at and j not in none_at:
+                keys.append(('slneg', i, j))
     keys.append(('mask', [True] * (n + 1)))
     return keys
 
@@ -312,6 +325,8 @@ def flat_wire_key(c, key, intern, vals, probes):
         return f'(lab {intern.lab(probes[key[1]])})'
     if k == 'sl':
         return f'(sl {intern.lab(vals[key[1]])} {intern.lab(vals[key[2]])} N)'
+    if k == 'slneg':
+        return f'(sl {intern.lab(vals[key[1]])} {intern.lab(vals[key[2]])} -1)'
     if k == 'slopen':
         a = 'N' if key[1] is None else intern.lab(vals[key[1]])
         b = 'N' if key[2] is None else intern.lab(vals[key[2]])
@@ -337,6 +352,8 @@ def flat_py_key(key, labels, probes):
         return probes[key[1]]
     if k == 'sl':
         return slice(labels[key[1]], labels[key[2]])
+    if k == 'slneg':
+        return slice(labels[key[1]], labels[key[2]], -1)
     if k == 'slopen':
         return slice(None if key[1] is None else labels[key[1]], None if key[2] is None else labels[key[2]])
     if k == 'slprobe':
@@ -561,8 +578,12 @@ def eval_flat(ctx, c, outs):
             ctx.count('flat_key_' + key[0])
             # oracle for slices / lists / masks (label slices are stop-inclusive)
             exp = None
+            det = None
             if key[0] == 'sl':
                 exp = list(range(key[1], key[2] + 1))
+            elif key[0] == 'slneg':
+                exp = list(range(key[1], key[2] - 1, -1))
+                det = {'negstep': True}
             elif key[0] == 'slopen':
                 exp = list(range(0 if key[1] is None else key[1], n if key[2] is None else key[2] + 1))
             elif key[0] == 'list':
@@ -571,9 +592,9 @@ def eval_flat(ctx, c, outs):
                 exp = [i for i, b in enumerate(key[1]) if b]
             if exp is not None:
                 if r[0] != 'ok':
-                    fails.append(Failure('oracle', f'{c["cls"]}.loc_to_iloc({pykey!r}) raised {type(r[2]).__name__}, expected positions {exp}', c))
+                    fails.append(Failure('oracle', f'{c["cls"]}.loc_to_iloc({pykey!r}) raised {type(r[2]).__name__}, expected positions {exp}', c, detail=det))
                 elif ic.ikey_positions(r[1], n) != exp:
-                    fails.append(Failure('oracle', f'{c["cls"]}.loc_to_iloc({pykey!r}) addresses {ic.ikey_positions(r[1], n)}, expected {exp}', c))
+                    fails.append(Failure('oracle', f'{c["cls"]}.loc_to_iloc({pykey!r}) addresses {ic.ikey_positions(r[1], n)}, expected {exp}', c, detail=det))
             elif key[0] in ('slprobe', 'listprobe') or (key[0] == 'mask' and len(key[1]) != n):
                 if r[0] == 'ok':
                     fails.append(Failure('oracle', f'{c["cls"]}.loc_to_iloc({pykey!r}) with an absent label / wrong length returned {r[1]!r}', c))
@@ -693,8 +714,8 @@ def eval_go(ctx, c, outs):
                 if r is None:
                     fails.append(Failure('oracle', f'append({v!r}) of a held label was accepted', c, detail={'op': oi}))
                     cur.append(hv)
-                elif err_cat(r) != 'lookup':
-                    fails.append(Failure('oracle', f'append({v!r}) of a held label raised {type(r).__name__} (expected KeyError)', c, detail={'op': oi}))
+                # which exception a rejected append raises is not part of the claim (KeyError, or automap's
+                # NonUniqueError for 1.0 on an automatic integer index holding 1); the unchanged index is checked below
         else:
             vs = ic.values(op[1])
             hvs = [H(v) for v in vs]
@@ -715,6 +736,20 @@ def eval_go(ctx, c, outs):
                 if r is None:
                     fails.append(Failure('oracle', f'extend({vs!r}) with a held or repeated label was accepted', c, detail={'op': oi}))
                     cur += hvs
+                else:
+                    # a rejected extend must leave a valid index: unchanged, or (atomicity is property C09's subject)
+                    # grown by a prefix of distinct new labels - the latter happens for a float equal to a held integer
+                    # on an automatic integer index, which the pre-check of extend cannot see
+                    try:
+                        now = [H(l) for l in ix]
+                    except Exception:
+                        now = None
+                    if now is not None and now != cur and now[:len(cur)] == cur:
+                        grown = now[len(cur):]
+                        if grown == hvs[:len(grown)] and len(set(now)) == len(now):
+                            ctx.count('go_extend_rejected_after_partial_growth')
+                            cur = now
+                            stop_model = True
         raised.append(None if r is None else err_cat(r))
         # the index must be a bijection on exactly the accepted labels after every call
         vio = check_bijection(ix, absent=['zz', 99], expect=cur, what=f'after op {oi} {op}')
@@ -722,7 +757,7 @@ def eval_go(ctx, c, outs):
             fails.append(Failure('oracle', v, c, detail={'op': oi}))
         if vio:
             break
-    if outs and not fails:
+    if outs and not fails and not stop_model:
         m = parse_answer(outs[0])
         if m[0] != 'ok':
             fails.append(Failure('corr', f'model run answered {outs[0]}', c))
@@ -862,8 +897,8 @@ def eval_ihgo(ctx, c, outs):
                     fails.append(Failure('oracle', f'append({key!r}) of a held / wrong-depth key was accepted', c,
                                          detail={'op': oi, 'why': 'held', 'f11': f11_shape(cur, hk)}))
                 elif not ok_expected:
-                    # the key cannot be stored in tree order: accepting it silently must not store something else
-                    pass
+                    fails.append(Failure('oracle', f'append({key!r}) names a closed sub-tree (not a tree in the given order) but was accepted', c,
+                                         detail={'op': oi}))
                 cur.append(hk)
             else:
                 if ok_expected:
@@ -1119,6 +1154,13 @@ def eval_derive(ctx, c, outs):
                 expect_dup = len(set(res_exp)) != len(res_exp)
             else:
                 expect_dup = len(set(res_exp)) != len(res_exp) or not ic.tree_ordered(res_exp)
+                # the promoted targets keep their own label lists: a label held under two different dropped parents makes
+                # the new outer index non-unique, which level_drop rejects (ErrorInitIndexNonUnique) instead of merging
+                parents = {}
+                for h in hs:
+                    parents.setdefault(h[cnt], set()).add(h[:cnt])
+                if any(len(v) > 1 for v in parents.values()):
+                    expect_dup = True
             exp = res_exp
             res = ix.level_drop(cnt)
         elif op == 'flat':
@@ -1181,53 +1223,9 @@ def eval_derive(ctx, c, outs):
 
 
 # ----------------------------------------------------------------------------- findings
-def go_float_defect(c):
-    """an append / extend reaches `_labels_mutable.append(v)` with a v that is not int-typed but equals a held
-    integer while the index is still map-less (simulation of the code's own tests, not of the property)"""
-    if c.get('k') != 'go' or 'auto' not in c['start']:
-        return False
-    auto = True
-    cur = [f'n:{i}' for i in range(c['start']['auto'])]
-
-    def is_int(v):
-        return isinstance(v, (int, np.integer))
-
-    def contains(v):
-        if auto:
-            return is_int(v) and 0 <= int(v) < len(cur)
-        return H(v) in cur
-
-    for op in c['ops']:
-        vals = [untok(op[1])] if op[0] == 'ap' else ic.values(op[1])
-        if op[0] == 'ex':
-            hv = [H(v) for v in vals]
-            if len(set(hv)) != len(hv) or any(contains(v) for v in vals):
-                continue
-            if auto and any((not is_int(v)) and H(v) in cur for v in vals):
-                return True       # the pre-check of extend cannot see a float equal to a held integer
-        for v in vals:
-            if contains(v):
-                break
-            if auto and H(v) in cur:
-                return True
-            if auto and not (is_int(v) and int(v) == len(cur)):
-                auto = False
-            cur.append(H(v))
-    return False
-
-
 def classify(f):
     c = f.case
     d = f.detail or {}
-    if c.get('k') == 'go' and go_float_defect(c):
-        return 'F41-auto-indexgo-append-float-equal-int'
-    if c.get('k') == 'ihgo' and f.kind == 'oracle' and d.get('f11'):
-        return 'F11-levelgo-append-last-child'
-    if c.get('k') == 'derive' and f.kind == 'oracle' and c['op'] == 'level_drop' and 'ih' in c['base'] \
-            and len(c['base']['kinds']) >= 3 and len({untok(t)[0] for t in c['base']['ih']}) >= 2:
-        return 'F45-level-drop-outer-offsets'
-    if c.get('k') == 'ihgo' and f.kind == 'oracle' and d.get('empty_extend'):
-        return 'F43-extend-on-empty-hierarchy'
-    if c.get('k') == 'ih' and f.kind == 'oracle' and d.get('overlong'):
-        return 'F42-indexlevel-contains-overlong-key'
+    if c.get('k') == 'flat' and f.kind == 'oracle' and d.get('negstep'):
+        return 'F47-label-slice-negative-step-stop'
     return None
